@@ -397,6 +397,40 @@ def probes(ctx, a, hist, where):
     if sorted(CALLS) != sorted(a['plugins']['check_template']):
         ctx.violation({**sig, 'clause': 'active check_template plugins run exactly once', 'registry': 'plugins'},
                       f'history {hist}: active {sorted(a["plugins"]["check_template"])}, called {CALLS}')
+    # a plugin dict given to one run replaces the registered plugins of the scopes it names - and of no other scope
+    for given, script_, scope in (('check_template', op('GET_MESSAGE') + b'\x00', 'signature_extensions'),
+                                  ('signature_extensions', P(b'abc') + op('CHECK_TEMPLATE') + b'\x01', 'check_template'),
+                                  ('a scope of the embedder\'s own', op('GET_MESSAGE') + b'\x00', 'signature_extensions')):
+        CALLS.clear()
+        try:
+            F.run_script(script_, {'sigfield1': b'abc'}, plugins={given: [PLUGINS['p3']]}, additional_flags={10: False})
+        except BaseException as e:
+            ctx.violation({**sig, 'clause': 'probe run failed'}, f'history {hist}: {e!r}')
+        ctx.ran()
+        if sorted(CALLS) != sorted(a['plugins'][scope]):
+            ctx.violation({**sig, 'clause': 'registered plugins of a scope the injected dict does not name still run', 'registry': 'plugins',
+                           'scope': scope}, f'history {hist}: injected {given!r} only; active {sorted(a["plugins"][scope])}, called {CALLS}')
+    # code executed at compile time (~! { }) sees the registries like any other execution
+    for cid in (b'c1', b'c2'):
+        CALLS.clear()
+        try:
+            got = P_.compile_script('push ~! { push x00 push x%s invoke }' % cid.hex())
+        except BaseException:
+            got = None
+        ctx.ran()
+        want = P_.compile_script('push x41') if a['contracts'].get(cid) == 'A' else None
+        if got != want:
+            ctx.violation({**sig, 'clause': 'contract used by INVOKE iff active', 'registry': 'contracts', 'inside': 'comptime'},
+                          f'history {hist}: {cid!r} active as {a["contracts"].get(cid)}, compile-time INVOKE -> {got}')
+    CALLS.clear()
+    try:
+        P_.compile_script('push ~! { get_message x00 }')
+    except BaseException as e:
+        pass
+    ctx.ran()
+    if sorted(CALLS) != sorted(a['plugins']['signature_extensions']):
+        ctx.violation({**sig, 'clause': 'active signature-extension plugins run exactly once', 'registry': 'plugins', 'inside': 'comptime'},
+                      f'history {hist}: active {sorted(a["plugins"]["signature_extensions"])}, called {CALLS}')
     # contracts reachable iff active
     for cid in (b'c1', b'c2'):
         CALLS.clear()
